@@ -130,6 +130,12 @@ def classify_test(ctx: Ctx, qual, test, subject) -> Tuple[str, list, str]:
             if is_unknown(v):
                 raise AnalysisError("cannot fold the type table in %s at %s" % (norm(c), ctx.loc(qual, c)))
             got = ("exact", [kind_of_value(x) for x in (v.keys() if isinstance(v, dict) else v)])
+        elif (isinstance(c, ast.Compare) and len(c.ops) == 1 and isinstance(c.ops[0], (ast.Is, ast.Eq)) and isinstance(c.left, ast.Call)
+              and call_name(c.left) == "type" and c.left.args and norm(c.left.args[0]) == subject):
+            k = kind_of_class_expr(ctx, fi.module, c.comparators[0])
+            if k is None:
+                raise AnalysisError("cannot resolve class in %s at %s" % (norm(c), ctx.loc(qual, c)))
+            got = ("exact", [k])
         elif isinstance(c, ast.Compare) and len(c.ops) == 1 and isinstance(c.ops[0], ast.Eq) and subject in (norm(c.left), norm(c.comparators[0])):
             other = c.comparators[0] if norm(c.left) == subject else c.left
             v = ctx.eval_in(qual, other)
@@ -190,11 +196,67 @@ def early_return_chain(ctx: Ctx, qual, subject) -> List[Arm]:
     return arms
 
 
-def arm_for(arms: List[Arm], k) -> Optional[Arm]:
+def arm_for(arms: List[Arm], k, subject=None) -> Optional[Arm]:
     for a in arms:
         if a.admits(k):
             return a
+        if a.mode == "other" and a.test is not None and subject and any(isinstance(x, ast.Name) and x.id == subject for x in ast.walk(a.test)):
+            raise AnalysisError("cannot interpret the dispatch test `%s` on %s (line %d)" % (norm(a.test)[:60], subject, getattr(a.test, "lineno", 0)))
     return None
+
+
+def possible_values(ctx: Ctx, q, e, depth=0):
+    """All folded values expression `e` (in function q) may take: constants, both arms of a conditional, every
+    return of a called repository function, every element a returned loop variable ranges over."""
+    if depth > 4:
+        return [None]
+    try:
+        v = ctx.eval_in(q, e)
+    except AnalysisError:
+        v = None
+    if v is not None and not is_unknown(v):
+        return [v]
+    fi = ctx.fn(q)
+    if isinstance(e, ast.IfExp):
+        return possible_values(ctx, q, e.body, depth + 1) + possible_values(ctx, q, e.orelse, depth + 1)
+    if isinstance(e, ast.Name):
+        out = []
+        from ..mutation import all_assignments
+        defs = all_assignments(fi.node, e.id)
+        for n in walk_function(fi.node):
+            if isinstance(n, ast.For) and any(isinstance(x, ast.Name) and x.id == e.id for x in ast.walk(n.target)):
+                it = None
+                try:
+                    it = ctx.eval_in(q, n.iter)
+                except AnalysisError:
+                    pass
+                items = ctx.f._iterate(it) if it is not None and not is_unknown(it) else None
+                if items is None:
+                    return [None]
+                if isinstance(n.target, ast.Tuple):
+                    idx = [i for i, t in enumerate(n.target.elts) if isinstance(t, ast.Name) and t.id == e.id]
+                    out += [row[idx[0]] for row in items if isinstance(row, (tuple, list)) and idx and len(row) > idx[0]]
+                else:
+                    out += list(items)
+        for d in defs:
+            if d is not None:
+                out += possible_values(ctx, q, d, depth + 1)
+        return out or [None]
+    if isinstance(e, ast.Call):
+        r = ctx.p.resolve_dotted(fi.module, e.func) if dotted(e.func) else None
+        callee = None
+        if r and r[0] == "func":
+            callee = r[1]
+        elif isinstance(e.func, ast.Attribute) and norm(e.func.value) == "self" and fi.cls:
+            callee = ctx.p.lookup_method(fi.cls, e.func.attr)
+        if callee:
+            out = []
+            cf = ctx.fn(callee)
+            for n in walk_function(cf.node):
+                if isinstance(n, ast.Return) and n.value is not None:
+                    out += possible_values(ctx, callee, n.value, depth + 1)
+            return out or [None]
+    return [None]
 
 
 def shadowed(arms: List[Arm]):
@@ -272,9 +334,9 @@ def json_arm_outcome(ctx: Ctx, q, arm: Arm, subject, k):
                         if kind_of_value(key) == k:
                             return ("tag", val)
                 return ("?", "type table has no entry")
-            v = ctx.eval_in(q, tv)
-            if isinstance(v, str):
-                return ("tag", v)
+            vs = possible_values(ctx, q, tv)
+            if vs and all(isinstance(v, str) for v in vs):
+                return ("tag", vs[0]) if len(set(vs)) == 1 else ("tags", sorted(set(vs)))
             return ("?", norm(tv))
         return ("?", "object without type")
     if isinstance(e, ast.Call) and call_name(e) == "literal_json_representation":
@@ -288,12 +350,12 @@ def json_writer_tags(ctx: Ctx):
     q, subject, arms = json_writer_chain(ctx)
     out = {}
     for k in NATIVE:
-        arm = arm_for(arms, k)
+        arm = arm_for(arms, k, subject)
         if arm is None:
             out[k] = None
             continue
         kind, val = json_arm_outcome(ctx, q, arm, subject, k)
-        out[k] = val if kind == "tag" else (None if kind == "raw" else "<%s>" % kind)
+        out[k] = val if kind == "tag" else (val[0] if kind == "tags" else (None if kind == "raw" else "<%s>" % kind))
     return out
 
 
@@ -397,21 +459,26 @@ def c01_r3(ctx: Ctx, rule):
     for b, a, kb in shadowed(arms):
         res.notes.append("arm %r is shadowed by earlier arm %r for kind %s" % (b, a, kb))
     for k in NATIVE:
-        arm = arm_for(arms, k)
+        arm = arm_for(arms, k, subject)
         if arm is None:
             res.ob("kind %s: no arm" % k)
             res.fail(rule.id, "json-codec::%s::no-arm" % k, ctx.loc(q, ctx.fn(q).node), "no branch of encode_json_representation admits a %s" % k)
             continue
         okind, val = json_arm_outcome(ctx, q, arm, subject, k)
-        if okind == "tag":
-            tq = resolve_tag(ctx, val)
-            if tq is None:
-                back = "?unresolvable tag %r" % (val,)
-            elif tq in table:
-                back = table[tq]
-            else:
-                back = model_parser_kind(ctx, tq) if default == "Literal" else default
-            desc = "tag %r -> %s" % (val, back)
+        if okind in ("tag", "tags"):
+            backs = []
+            for one in ([val] if okind == "tag" else val):
+                tq = resolve_tag(ctx, one)
+                if tq is None:
+                    b1 = "?unresolvable tag %r" % (one,)
+                elif tq in table:
+                    b1 = table[tq]
+                else:
+                    b1 = model_parser_kind(ctx, tq) if default == "Literal" else default
+                backs.append((one, b1))
+            wrong = [x for x in backs if x[1] != k]
+            back = wrong[0][1] if wrong else k
+            desc = "tag %s -> %s" % (", ".join(repr(x[0]) for x in backs) if not wrong else repr(wrong[0][0]), back)
         elif okind == "raw":
             back = k if k in ("str", "bool", "int", "float") else "?raw JSON value for a %s" % k
             desc = "raw JSON value -> %s" % back
@@ -457,15 +524,12 @@ def xml_writer_chains(ctx: Ctx):
 
 
 def assigned_consts(ctx: Ctx, q, body, target_pred):
-    """Folded values assigned in `body` to targets satisfying target_pred(node)."""
+    """Folded values assigned in `body` to targets satisfying target_pred(node) (every value a helper may return)."""
     out = []
     for s in body:
         for n in ast.walk(s):
             if isinstance(n, ast.Assign) and any(target_pred(t) for t in n.targets):
-                try:
-                    out.append(ctx.eval_in(q, n.value))
-                except AnalysisError:
-                    out.append(None)
+                out += possible_values(ctx, q, n.value)
     return out
 
 
@@ -528,8 +592,16 @@ def c02_r3(ctx: Ctx, rule):
         arm = arm_for(typ, k)
         tag = None
         if arm is not None:
-            vals = [v for v in assigned_consts(ctx, q, arm.body, lambda t: isinstance(t, ast.Name) and t.id == "xsd_type") if isinstance(v, QN)]
+            allv = assigned_consts(ctx, q, arm.body, lambda t: isinstance(t, ast.Name) and t.id == "xsd_type")
+            vals = [v for v in allv if isinstance(v, QN)]
+            if any(v is None for v in allv):
+                raise AnalysisError("cannot fold the xsd type assigned for %s in serialize_bundle" % k)
             tag = vals[0] if vals else None
+            # every type a helper may choose must read back as the kind
+            for v in vals:
+                bk = special[v] if v in special else (model_parser_kind(ctx, v) if default == "Literal" else default)
+                if bk != k:
+                    tag = v
         if tag is None:
             back = "?no tag"
         elif tag in special:
